@@ -15,6 +15,7 @@ PARTS = HEAD + consts('LEAD_SIZE', 'INDEX_HEADER_SIZE', 'INDEX_ENTRY_SIZE', 'HEA
     Prelude('hdrspec.rs'),
     Prelude('read.rs'),
     Prelude('stdspecs.rs'),
+    Prelude('stdspecs2.rs'),
     Prelude('alloc.rs'),
     Prelude('decode.rs'),
     Prelude('leaves.rs'),
@@ -376,11 +377,11 @@ pub fn canary_c01_parse_header(ih: IndexHeader, bytes: &[u8])
 ] + TAIL
 
 OBLIGATIONS = {
-    'Header::parse': ['C01', 'C14', 'C04'],
-    'Header::parse_header': ['C01', 'C14', 'C04', 'C05'],
+    'Header::parse': ['C01', 'C14', 'C04', 'C16'],
+    'Header::parse_header': ['C01', 'C14', 'C04', 'C05', 'C16'],
     'Header::padding_required': ['C01'],
-    'Header::parse_signature': ['C01', 'C14', 'C04'],
-    'PackageMetadata::parse': ['C01', 'C14', 'C04'],
+    'Header::parse_signature': ['C01', 'C14', 'C04', 'C16'],
+    'PackageMetadata::parse': ['C01', 'C14', 'C04', 'C16'],
     'Package::parse': ['C01', 'C14', 'C04'],
     'c01_roundtrip_metadata': ['C01'],
     'lemma_ser_entries_frame': ['C01'],
